@@ -24,7 +24,7 @@ Reading guide (clauses of the property → theorems):
 * "merges included files deterministically (the including file first, then each included file in
   listed order)" → `merge_order`, `merge_into_appends`
 * "rejecting circular includes" → `circular_include_rejected`, `include_of_visited_rejected`,
-  `merge_no_path_twice`, `merge_terminates_partial`
+  `merge_no_path_twice`, `merge_terminates` (closed universe of spellings), `merge_terminates_partial`
 * "never reading a file that is not a .dae file or that lies outside the entry configuration
   directory" → `merge_reads_confined`, `confined_means_under`
 -/
@@ -67,8 +67,8 @@ theorem parse_spells (K : Classes) (text : List Char) (ast : List ASection) (h :
 
 /-- **Lexer completeness: nothing written is dropped.** If the lexer accepts a text, the text is the
 concatenation, in order, of pieces each of which is either the exact spelling (`Tok.text`) of the
-next token returned, or trivia — one whitespace character, a text starting with `#`, or a text
-starting with `/*`.  (Together with `tokens_iff_tree` and `parse_spells`: every character of an
+next token returned, or trivia of an exact shape (`isTrivia`): one whitespace character; `#`, a body
+without newline characters and the whole newline run after it; `/*` body `*/`.  (Together with `tokens_iff_tree` and `parse_spells`: every character of an
 accepted configuration is spelled by the tree or is whitespace/comment.) -/
 theorem lexer_accounts_for_every_character (K : Classes) (text : List Char) (ts : List Tok)
     (h : lex K text = some ts) :
@@ -266,6 +266,31 @@ theorem confined_means_under (file dir : List Char) (h : ensureInSubDir file dir
 example : ensureInSubDir ['/', 'e', '/', 's', '/', 'a'] ['/', 'e'] = true ∧
     ensureInSubDir ['/', 'e', '/', '.', '.', '/', 'b'] ['/', 'e'] = false ∧
     ensureInSubDir ['/', 'e', 'x', '/', 'b'] ['/', 'e'] = false := by decide
+
+/-- **Termination — for real file systems with alias spellings.** `U` is any finite list of path
+spellings that contains the entry and is closed under "is included by" (`ClosedUniverse`: whatever a
+readable, parsable member of `U` includes, after glob expansion and filtering, is again in `U`).
+Then `|U| + 1` levels of fuel are never exhausted.  Such a `U` exists for every finite directory
+tree although each file has infinitely many spellings (`/e/a.dae`, `/e/./a.dae`, …): file contents
+do not depend on the spelling, so only finitely many include values are written, each expanding
+to finitely many glob answers; `U = entry :: all glob answers`.  (The driver takes exactly that
+bound as its fuel.)  The nesting depth is bounded because every nested call adds a NEW spelling
+of `U` to the duplicate-free visited list (pigeonhole). -/
+theorem merge_terminates (K : Classes) (fs : FS) (U : List (List Char)) (entry : List Char) (fuel : Nat)
+    (hentry : entry ∈ U) (hclosed : ClosedUniverse K fs (dirOf entry) U) (hfuel : U.length + 1 ≤ fuel) :
+    (merge K fs fuel entry).2 ≠ .error .fuel :=
+  (levelOK_all K fs (dirOf entry) U hclosed fuel ⟨[], []⟩ entry hentry ⟨List.nodup_nil, by simp⟩).2
+    (by simpa using hfuel)
+
+example :
+    let fs : FS := { stat := fun p => if p = ['a', '.', 'd', 'a', 'e'] then some ⟨false, 0o600, []⟩ else none,
+                     glob := fun _ => some [] }
+    (merge stdK fs 2 ['a', '.', 'd', 'a', 'e']).2 ≠ .error .fuel := by
+  intro fs
+  refine merge_terminates stdK fs [['a', '.', 'd', 'a', 'e']] _ 2 (by simp) ?_ (by simp)
+  intro p _ fi _ ss _ pats _ children hch c hc
+  rw [unsqueeze_empty_globs fs (fun _ => rfl) pats children hch] at hc
+  simp at hc
 
 /-- **Termination — partial.** If the set of path STRINGS that can be stat-ed is finite (`files` lists
 them all), the merge never runs out of fuel when given at least `|files| + 1` levels: every nested
